@@ -1421,16 +1421,47 @@ func panicSignature(t target, cl call, ir itemResult) string {
 		}
 		return fmt.Sprintf("no runtime implementation of %s#%s (Go panic: tried to call an invalid method)", rclass, method)
 	}
-	generic := true
-	for _, f := range strings.Split(msg, " @ ")[1:] {
-		if !strings.HasPrefix(f, "vm.(*Thread).") {
-			generic = false
+	// any other panic: the message plus the native function it happened under (the frame called by the VM's native
+	// dispatch), not the innermost frames: where exactly a native trips over a bad value may differ from run to run,
+	// the native that was entered does not
+	text := strings.SplitN(msg, " @ ", 2)[0]
+	if nf := nativeFrame(ir.stack); nf != "" {
+		return fmt.Sprintf("go-panic calling %s: %s [native %s]", t.id, text, nf)
+	}
+	return fmt.Sprintf("go-panic calling %s: %s", t.id, msg)
+}
+
+var closureSuffixRe = regexp.MustCompile(`(\.func\d+|\.\d+)+$`)
+
+var dispatchFrameRe = regexp.MustCompile(`^github\.com/elk-language/elk/vm\.\(\*Thread\)\.(callNativeMethod|CallMethod|callNativeClosure|CallNativeClosure|opInstantiate)\(`)
+
+// nativeFrame returns the function that the VM's native dispatch had called when the panic happened (innermost
+// dispatch), e.g. "vm.initPair"; "" when the panic did not happen under a native.
+func nativeFrame(stack string) string {
+	prev := ""
+	for _, l := range strings.Split(stack, "\n") {
+		if l == "" || l[0] == '\t' || strings.HasPrefix(l, "goroutine ") {
+			continue
+		}
+		if dispatchFrameRe.MatchString(l) {
+			if strings.HasPrefix(prev, "github.com/elk-language/elk/") && !strings.HasPrefix(prev, "github.com/elk-language/elk/vm.(*Thread).") {
+				f := strings.TrimPrefix(prev, "github.com/elk-language/elk/")
+				if i := strings.LastIndex(f, "("); i > 0 {
+					f = f[:i]
+				}
+				// closures are numbered in source order (initPair.func7): the number moves when a native is added
+				// above it, the enclosing init function does not
+				return closureSuffixRe.ReplaceAllString(f, "")
+			}
+			return ""
+		}
+		if strings.HasPrefix(l, "github.com/elk-language/elk/") {
+			prev = l
+		} else if !strings.HasPrefix(l, "panic(") && !strings.HasPrefix(l, "runtime.") {
+			prev = ""
 		}
 	}
-	if generic {
-		return fmt.Sprintf("go-panic calling %s: %s", t.id, msg)
-	}
-	return "go-panic in native code: " + msg
+	return ""
 }
 
 // trimStack drops the harness/runtime frames above the first elk frame.
@@ -1692,7 +1723,7 @@ func confirmInChild(c *engine.Ctx, t target, items []int) (map[string]bool, erro
 // childMain is the entry point of a confirmation process.
 func childMain(tier string) {
 	elkrun.Init()
-	debug.SetMaxStack(64 << 20)
+	debug.SetMaxStack(16 << 20)
 	env = checker.NewGlobalEnvironment()
 	allNS = allNamespaces()
 	id := os.Getenv("C28_CONFIRM")
@@ -1859,6 +1890,24 @@ func run(c *engine.Ctx) {
 	}
 }
 
+// corruptionSig is the one signature given to worker crashes whose crash site is not a deterministic consequence of
+// the case that was running: several natives cast their arguments with unsafe pointer conversions, so a call that
+// reaches them with a value of another class (see the "interface conversion"/"not a reference" findings) scribbles
+// over the Go heap, and the process dies later at an arbitrary place (GC, timers, JSON encoding, the type checker).
+const corruptionSig = "host-crash: Go runtime fault at a varying site (heap corrupted by a memory-unsafe native reached from well-typed Elk code); the crashing case is not necessarily the culprit"
+
+// normaliseCrashes runs in the parent after all workers: crash signatures built from the crash site are kept only
+// when the site identifies the defect (runaway native recursion); the others get the one stable signature above.
+func normaliseCrashes(a *engine.Agg) {
+	for i := range a.Viol {
+		v := &a.Viol[i]
+		if strings.HasPrefix(v.Sig, "host-crash:") && !strings.Contains(v.Sig, "stack overflow") {
+			v.Detail = "crash signature of this run: " + v.Sig + "\n" + v.Detail
+			v.Sig = corruptionSig
+		}
+	}
+}
+
 func main() {
 	if os.Getenv("C28_CONFIRM") != "" {
 		// keep the real stdout for the protocol before elkrun.Init redirects os.Stdout
@@ -1892,13 +1941,14 @@ func main() {
 		},
 		Setup: func(c *engine.Ctx) {
 			elkrun.Init()
-			debug.SetMaxStack(64 << 20) // runaway native recursion dies quickly instead of growing a 1 GB stack
+			debug.SetMaxStack(16 << 20) // runaway native recursion dies quickly instead of growing a 1 GB stack
 			env = checker.NewGlobalEnvironment()
 			allNS = allNamespaces()
 		},
 		Run:             run,
+		Finish:          normaliseCrashes,
 		HangIsViolation: false,
 		CaseTimeout:     240 * time.Second,
-		QuickDeadline:   15 * time.Minute, // the tier is sized for ~1 min on 16 idle cores; the cap only matters on an overloaded machine
+		QuickDeadline:   12 * time.Minute, // the tier is sized for ~1 min on 16 idle cores; the cap only matters on an overloaded machine
 	})
 }
